@@ -464,6 +464,7 @@ func runTCP(r *hk.Run, rng *hk.Rand) {
 	runSplice(r, rng)
 	runExpect(r, rng)
 	runIdleStray(r)
+	runScript(r, rng)
 }
 
 var _ = bytes.Equal
